@@ -28,7 +28,7 @@ fn min_version(l: usize, mode: usize, len: usize) -> Option<usize> {
 fn check_get(mode: usize, l: usize) {
     let len: usize = kani::any();
     kani::assume(len <= 1 << 40);
-    let got = Version::get(MODES[mode], ECLS[l], len).map(|v| v as usize);
+    let got = Version::get(MODES[mode], ECLS[l], len as _).map(|v| v as usize);
     let want = min_version(l, mode, len);
     assert_eq!(got, want);
     // monotonicity: every version at least as large as the chosen one still holds the payload, so a larger
@@ -48,7 +48,7 @@ fn check_get(mode: usize, l: usize) {
 fn check_get_huge(mode: usize, l: usize) {
     let len: usize = kani::any();
     kani::assume(len > 1 << 40);
-    assert!(Version::get(MODES[mode], ECLS[l], len).is_none());
+    assert!(Version::get(MODES[mode], ECLS[l], len as _).is_none());
 }
 
 macro_rules! get_harness {
